@@ -1309,6 +1309,10 @@ _ical_proc(struct ical_parser_s p[static 1U])
 {
 /* parse stuff in P->stash up to a size of SZ
  * the stash will contain a whole line which is assumed to be consumed */
+#if defined ECHSE_VERIF && defined ECHSE_VERIF_PROC
+	/* verification hook: a harness observes the completed lines instead */
+	return ECHSE_VERIF_PROC(p);
+#endif
 	const char *sp = p->stash;
 	const size_t sz = p->six;
 	const char *const ep = sp + sz;
